@@ -11,7 +11,7 @@ LEVEL = "exploration"
 RULE = (
     "a probe on RSL.__init__ collects every RSL the real code constructs while the workload (a) instantiates every "
     "PartonicChannel subclass of the light/heavy/asy/intrinsic families for every kind/process with the real constructor "
-    "signatures (nf 3..6, Q2/m2 from 1.1 to 1e6, orders 0..3), (b) collects the kernels of real runner configurations through "
+    "signatures (nf 3..6, Q2/m2 from 0.03 (thorough: 0.01) to 1e6, orders 0..3), (b) collects the kernels of real runner configurations through "
     "Combiner.collect_elems, (c) builds every splitting / convolved-splitting label for nf 3..6. For each RSL: all parts are "
     "evaluated on an x sample (log and linear spacing plus 1-10^-k) and must return finite real scalars; loc(x)-loc(x0) must equal "
     "-int_{x0}^{x} sing (own quadrature, rtol 1e-4 on int|sing|). Distinct = (family, module, class, order, nf); "
@@ -40,7 +40,8 @@ def floor(tier):
 def cases(tier, rng):
     out = []
     nfs = [3, 4, 5, 6]
-    ratios = [1.1, 5.0, 200.0, 1e5] if tier == "quick" else [1.1, 2.0, 5.0, 30.0, 200.0, 3e3, 1e5, 1e6]
+    # (ratios below 1 are ordinary kinematics for the heavier quarks: bottom production at Q2 of a few GeV2)
+    ratios = [0.03, 0.3, 1.1, 5.0, 200.0, 1e5] if tier == "quick" else [0.01, 0.03, 0.09, 0.11, 0.3, 1.1, 2.0, 5.0, 30.0, 200.0, 3e3, 1e5, 1e6]
     k = 0
     for fam, kind, proc in itertools.product(FAMILIES, KINDS, ["nc", "cc"]):
         top = 7 if fam == "light" else 6  # heavy/asy/intrinsic: nf light flavours plus the heavy quark itself, so nf <= 5
